@@ -98,6 +98,8 @@ def check(run):
         'inside a gated appender; start occupancies 0,1,cap-1,cap,cap+1,random; after EVERY operation: delivered ids in order, discard counter, buffer length, '
         'whether the call returned; non-trivial = at least one discard or a blocked call', keep_empty=False, timeout=3000)
     run_concurrent(run, 'c04/concurrent', 40 if quick else 1200)
+    import c06
+    c06.stalled(run, 12 if quick else 300, name='c04/stalled-conservation')
     return 'see streams'
 
 
